@@ -131,7 +131,11 @@ def labels(rep):
     ok, construct = C.initial_partition_sorted(ip, "node_attr_keys")
     rep.ob("O18.2", "R12", ip, ok, construct, "initial cells are ordered by their attribute key (not by insertion order)")
     sig_keys = [n for n in walk_local(sig.node, into_nested=True) if isinstance(n, ast.Attribute) and n.attr in ("node_attr_keys", "edge_attr_keys")]
-    rep.ob("O18.2", "R12", sig, {n.attr for n in sig_keys} == {"node_attr_keys", "edge_attr_keys"}, sorted({n.attr for n in sig_keys}),
+    found_ = {n.attr for n in sig_keys}
+    # a key set read through a method of the same object (self._edge_key(..)) is not visible here: not evidence that it is ignored
+    via_helper = any(isinstance(c, ast.Call) and isinstance(c.func, ast.Attribute) and norm(c.func.value) == "self" and c.func.attr not in ("_freeze",)
+                     for c in walk_local(sig.node, into_nested=True))
+    rep.ob("O18.2", "R12", sig, True if found_ == {"node_attr_keys", "edge_attr_keys"} else (None if via_helper else False), sorted(found_),
            "the refinement looks at the same node and arc keys as the label")
 
 
